@@ -458,6 +458,28 @@ pub fn gen_case<'a>(pool: &'a [PoolKey], workload: &str, seed: u64, index: u64) 
 				spec.sans = vec![gen_san(&mut rng)];
 			}
 		},
+		// the caller passes an attribute that itself uses the extensionRequest OID, next to requested extensions
+		"caller-extreq" => {
+			if index >= 8 {
+				return None;
+			}
+			fill_presence(&mut rng, &mut spec, Presence { ku: index & 1 != 0, san: index & 2 != 0, eku: index & 4 != 0, ..Default::default() });
+			spec.nc = None;
+			spec.ekus.retain(|e| !matches!(e, EkuSpec::Other(_)));
+			// a syntactically valid extension request of the caller's own: one unknown extension
+			let inner = vec![0x31, 0x0f, 0x30, 0x0d, 0x30, 0x0b, 0x06, 0x03, 0x2a, 0x03, 0x04, 0x04, 0x04, 0x04, 0x02, 0x05, 0x00];
+			attrs = vec![AttrCase { oid: x509::OID_EXT_REQ.to_vec(), values: inner }];
+			if index >= 4 {
+				attrs.push(gen_attr(&mut rng));
+			}
+		},
+		// requests beyond 64 KiB
+		"huge" => {
+			if index >= 2 {
+				return None;
+			}
+			spec.sans = (0..2800 + index * 1300).map(|i| SanSpec::Dns(format!("host-{:06}.example.com", i))).collect();
+		},
 		"keys" => {
 			if index >= pool.len() as u64 {
 				return None;
@@ -503,7 +525,7 @@ pub fn gen_case<'a>(pool: &'a [PoolKey], workload: &str, seed: u64, index: u64) 
 	})
 }
 
-pub const WORKLOADS: [&str; 6] = ["lattice", "refusal", "ku", "attrs", "keys", "random"];
+pub const WORKLOADS: [&str; 8] = ["lattice", "refusal", "ku", "attrs", "caller-extreq", "huge", "keys", "random"];
 
 pub fn run(ctx: &Ctx, prop: Prop, pool: &[PoolKey], n_random: u64) {
 	for wl in WORKLOADS {
